@@ -9,6 +9,7 @@ import (
 	"os"
 	"runtime/debug"
 	"strings"
+	"unicode/utf8"
 
 	"golang.org/x/tools/go/ssa"
 )
@@ -861,14 +862,29 @@ func (t *Thread) convert(v Value, from, to types.Type) Value {
 				return &SliceVal{Arr: arr, Off: 0, Len: len(x.B), Cap: len(x.B)}
 			}
 			// []rune: ASCII only
-			arr := newArrayCell(sl.Elem(), len(x.B))
-			for k, b := range x.B {
-				if !b.IsConst() || b.BV >= 0x80 {
-					unsupportedf("[]rune of non-ASCII/symbolic string")
+			var rs []rune
+			for k := 0; k < len(x.B); {
+				b := x.B[k]
+				if !b.IsConst() {
+					unsupportedf("[]rune of symbolic string")
 				}
-				arr.Elem(k).V = MkBV(b.BV, 32)
+				if b.BV < 0x80 {
+					rs = append(rs, rune(b.BV))
+					k++
+					continue
+				}
+				r, size, ok := decodeConstRune(x.B[k:])
+				if !ok {
+					unsupportedf("[]rune of symbolic string")
+				}
+				rs = append(rs, r)
+				k += size
 			}
-			return &SliceVal{Arr: arr, Off: 0, Len: len(x.B), Cap: len(x.B)}
+			arr := newArrayCell(sl.Elem(), len(rs))
+			for k, r := range rs {
+				arr.Elem(k).V = MkBV(uint64(uint32(r)), 32)
+			}
+			return &SliceVal{Arr: arr, Off: 0, Len: len(rs), Cap: len(rs)}
 		}
 		if isString(tu) {
 			return x
@@ -1481,7 +1497,15 @@ func (t *Thread) next(i *ssa.Next, it *RangeIter) Value {
 			t.ex.assume(BVCmp(OpULT, b, MkBV(0x80, 8)))
 			t.ex.H.noteOutside("range over string: symbolic bytes assumed ASCII")
 		} else if b.BV >= 0x80 {
-			unsupportedf("range over non-ASCII string")
+			// constant non-ASCII bytes: decoded exactly as the runtime does (invalid sequences
+			// yield U+FFFD, width 1); a symbolic byte inside the sequence is not modelled
+			r, size, ok := decodeConstRune(it.S.B[it.Idx:])
+			if !ok {
+				unsupportedf("range over non-ASCII string with symbolic continuation bytes")
+			}
+			k := it.Idx
+			it.Idx += size
+			return Tuple{TTrue, MkBV(uint64(k), 64), MkBV(uint64(uint32(r)), 32)}
 		}
 		k := it.Idx
 		it.Idx++
@@ -1497,6 +1521,27 @@ func (t *Thread) next(i *ssa.Next, it *RangeIter) Value {
 		}
 	}
 	return Tuple{TFalse, zeroValue(mt.Key()), zeroValue(mt.Elem())}
+}
+
+// decodeConstRune decodes the first rune of a string whose leading bytes are constants, with the
+// runtime's own rules (utf8.DecodeRune). ok is false when a byte the decoder has to look at is symbolic.
+func decodeConstRune(bs []*Term) (rune, int, bool) {
+	var buf []byte
+	for k := 0; k < len(bs) && k < utf8.UTFMax; k++ {
+		if !bs[k].IsConst() {
+			break
+		}
+		buf = append(buf, byte(bs[k].BV))
+	}
+	if len(buf) == 0 {
+		return 0, 0, false
+	}
+	r, size := utf8.DecodeRune(buf)
+	// a verdict that could change with the bytes we could not read is not a verdict
+	if len(buf) < utf8.UTFMax && len(buf) < len(bs) && !utf8.FullRune(buf) {
+		return 0, 0, false
+	}
+	return r, size, true
 }
 
 // ---------- program helpers ----------
